@@ -850,14 +850,15 @@ func (w *world) dumpKey() string {
 // alphabet returns the statements enabled in the current model state. The
 // order is fixed (simplest first) so choice indices replay deterministically.
 type alphaOpt struct {
-	Tables    []string // tables that may be created / used
-	Inserts   []int    // row counts for multi-row inserts
-	BigInsert bool
-	Updates   bool
-	Deletes   bool
-	NonePreds bool // include statements matching no row
-	FewDeletes bool // only DELETE upper half / DELETE all (not "= last row")
-	NullInsert bool // INSERT naming only the first column (the others are NULL)
+	Tables     []string // tables that may be created / used
+	Inserts    []int    // row counts for multi-row inserts
+	BigInsert  bool
+	Updates    bool
+	Deletes    bool
+	NonePreds  bool     // include statements matching no row
+	FewDeletes bool     // only DELETE upper half / DELETE all (not "= last row")
+	NullInsert bool     // INSERT naming only the first column (the others are NULL)
+	OnlyCreate []string // tables that may be created but get no other statements (row ids and LSNs consumed without a log record)
 }
 
 func (w *world) alphabet(o alphaOpt) []stmt {
@@ -894,6 +895,11 @@ func (w *world) alphabet(o alphaOpt) []stmt {
 		}
 		if o.NonePreds && len(t.Rows) > 0 {
 			out = append(out, mkDelete(m, tn, seqPred{"none", 0}))
+		}
+	}
+	for _, tn := range o.OnlyCreate {
+		if _, ok := m.Tables[tn]; !ok {
+			out = append(out, mkCreate(tn, worldSchemas[tn]))
 		}
 	}
 	return out
